@@ -1,151 +1,209 @@
 package main
 
 import (
-	"runtime/pprof"
+	"encoding/json"
 	"flag"
 	"fmt"
 	"os"
 	"sort"
 	"strings"
-	"time"
 
-	"golang.org/x/tools/go/packages"
 	"golang.org/x/tools/go/ssa"
-	"golang.org/x/tools/go/ssa/ssautil"
 )
 
-func main() {
-	harnessFile := flag.String("harness", "", "Go file injected into package analysis")
-	entry := flag.String("entry", "", "harness function")
-	unwind := flag.Int("unwind", 12, "loop unwinding limit")
-	depth := flag.Int("depth", 40, "call depth limit")
-	standalone := flag.Bool("standalone", true, "solve obligations in fresh solver processes")
-	solverBin := flag.String("solver", "z3", "solver binary for standalone obligations")
-	lazy := flag.Bool("lazy", true, "only check branch feasibility inside loops")
-	flag.StringVar(&DumpDir, "dump", "", "directory to dump obligations")
-	flag.IntVar(&Timeout, "T", 60, "per-obligation timeout (s)")
-	flag.StringVar(&PipeSolver, "pipe", "z3-new", "incremental solver binary")
-	nofeas := flag.Bool("nofeas", false, "never query the solver during execution")
-	prof := flag.String("cpuprofile", "", "cpu profile")
-	flag.Parse()
-	if *prof != "" {
-		f, _ := os.Create(*prof)
-		pprof.StartCPUProfile(f)
-		go func() { time.Sleep(60 * time.Second); pprof.StopCPUProfile(); f.Close(); fmt.Println("PROFILE DONE"); os.Exit(3) }()
-	}
-	var tStand time.Duration
-
-	t0 := time.Now()
-	overlay := map[string][]byte{}
-	for i, f := range strings.Split(*harnessFile, ",") {
-		src, err := os.ReadFile(f)
-		if err != nil {
-			panic(err)
-		}
-		overlay[fmt.Sprintf("/repo/zz_vrf_%d.go", i)] = src
-	}
-	cfg := &packages.Config{Mode: packages.LoadAllSyntax, Dir: "/repo", Env: append(os.Environ(), "GOFLAGS=-mod=mod", "GOPROXY=off")}
-	cfg.Overlay = overlay
-	pkgs, err := packages.Load(cfg, ".")
-	if err != nil {
-		panic(err)
-	}
-	if packages.PrintErrors(pkgs) > 0 {
-		os.Exit(2)
-	}
-	prog, spkgs := ssautil.AllPackages(pkgs, ssa.InstantiateGenerics)
-	prog.Build()
-	tLoad := time.Since(t0)
-	pkg := spkgs[0]
-	fn := pkg.Func(*entry)
-	if fn == nil {
-		fmt.Println("no such harness", *entry)
-		os.Exit(2)
-	}
+func newEngine(prog *ssa.Program, pkg *ssa.Package) *Engine {
 	e := &Engine{prog: prog, sol: NewSolver(), pdom: map[*ssa.Function]map[*ssa.BasicBlock]*ssa.BasicBlock{},
-		globals: map[*ssa.Global]int{}, Unwind: *unwind, MaxDepth: *depth,
+		globals: map[*ssa.Global]int{}, Unwind: 12, MaxDepth: 40,
 		intercept: map[string]func(*Engine, *Frame, *Ctx, []Value, *ssa.CallCommon) (Value, bool){},
-		strVars:   map[string]StrV{}, funcsHit: map[string]int{}, Lazy: *lazy, NoFeas: *nofeas}
+		strVars:   map[string]StrV{}, funcsHit: map[string]int{}, funcInstrs: map[string]int{}, Lazy: true,
+		eager: map[string]bool{}, OpenKeys: map[string]bool{}}
 	e.harnessPkg = pkg
 	e.installIntrinsics(pkg.Pkg.Path())
 	installModels(e)
 	installReflect(e)
+	return e
+}
 
-	t1 := time.Now()
-	func() {
-		defer func() {
-			if r := recover(); r != nil {
-				if u, ok := r.(unsupported); ok {
-					fmt.Println("UNSUPPORTED:", u.msg)
-					os.Exit(2)
-				}
-				panic(r)
+// runInits executes the package initialisers of the packages under test (their globals are read by the code).
+func (e *Engine) runInits(c *Ctx) {
+	for _, p := range e.prog.AllPackages() {
+		path := p.Pkg.Path()
+		if !strings.HasPrefix(path, "github.com/go-openapi/analysis") || strings.HasSuffix(path, "internal/debug") {
+			continue
+		}
+		if strings.Contains(path, "antest") {
+			continue
+		}
+		if init := p.Func("init"); init != nil && init.Blocks != nil {
+			_, nc := e.call(nil, c, init, nil, nil)
+			if nc != nil {
+				c.S = nc.S
+			}
+		}
+	}
+	// initialisers are not part of the evidence
+	e.funcsHit = map[string]int{}
+	e.Obls = nil
+}
+
+func main() {
+	if len(os.Args) < 2 {
+		fmt.Println("usage: symgo check|one|replay|dev ...")
+		os.Exit(2)
+	}
+	switch os.Args[1] {
+	case "check":
+		cmdCheck(os.Args[2:])
+	case "one":
+		cmdOne(os.Args[2:])
+	case "replay":
+		cmdReplay(os.Args[2:])
+	case "dev":
+		cmdDev(os.Args[2:])
+	case "selftest":
+		cmdSelftest(os.Args[2:])
+	default:
+		fmt.Println("unknown command", os.Args[1])
+		os.Exit(2)
+	}
+}
+
+// one: run a single RunSpec (JSON on the command line), print the RunResult as JSON on the last line.
+func cmdOne(args []string) {
+	fs := flag.NewFlagSet("one", flag.ExitOnError)
+	specJSON := fs.String("spec", "", "RunSpec as JSON")
+	out := fs.String("out", "", "file for the RunResult JSON")
+	verbose := fs.Bool("v", false, "progress output")
+	fs.StringVar(&DumpDir, "dump", "", "directory to dump obligations")
+	fs.Parse(args)
+	var spec RunSpec
+	if err := json.Unmarshal([]byte(*specJSON), &spec); err != nil {
+		fatal("bad spec: %v", err)
+	}
+	res := runOne(spec, *verbose)
+	b, _ := json.Marshal(res)
+	if *out != "" {
+		os.WriteFile(*out, b, 0o644)
+	} else {
+		fmt.Println(string(b))
+	}
+}
+
+// dev: developer front end: run one entry and print a readable report.
+func cmdDev(args []string) {
+	fs := flag.NewFlagSet("dev", flag.ExitOnError)
+	entry := fs.String("entry", "", "harness function")
+	unwind := fs.Int("unwind", 12, "loop unwinding limit")
+	depth := fs.Int("depth", 40, "call depth limit")
+	timeout := fs.Int("T", 60, "per-obligation timeout (s)")
+	params := fs.String("params", "", "k=v,k=v")
+	replay := fs.Bool("replay", false, "build the native replay binary and replay models")
+	cross := fs.Bool("cross", false, "cross-check with z3 4.8.12 and cvc5")
+	known := fs.String("known", "", "known mode: exclude | confirm:<key>")
+	open := fs.String("open", "", "comma separated open known-finding keys")
+	nofeas := fs.Bool("nofeas", false, "never query the solver during execution")
+	all := fs.Bool("all", false, "print all obligations, not only the interesting ones")
+	fs.StringVar(&DumpDir, "dump", "", "directory to dump obligations")
+	fs.StringVar(&HarnessDir, "harness", HarnessDir, "harness directory")
+	fs.Parse(args)
+	spec := RunSpec{Entry: *entry, Unwind: *unwind, Depth: *depth, Timeout: *timeout, Params: map[string]int{}, Cross: *cross, KnownMode: *known, NoFeas: *nofeas, Prop: "DEV"}
+	if *open != "" {
+		spec.OpenKeys = strings.Split(*open, ",")
+	}
+	if *params != "" {
+		for _, kv := range strings.Split(*params, ",") {
+			var k string
+			var v int
+			p := strings.SplitN(kv, "=", 2)
+			k = p[0]
+			fmt.Sscan(p[1], &v)
+			spec.Params[k] = v
+		}
+	}
+	tmp, _ := os.MkdirTemp("", "symgo-dev-")
+	defer os.RemoveAll(tmp)
+	spec.ReplayDir = tmp
+	if *replay {
+		spec.ReplayBin = tmp + "/replay.test"
+		go func() {
+			if err := buildReplayBin(spec.ReplayBin); err != nil {
+				fmt.Println("replay build:", err)
 			}
 		}()
-		c := &Ctx{S: &State{PC: TTrue, Heap: map[int]*Obj{}}, Regs: map[ssa.Value]Value{}}
-		_, end := e.call(nil, c, fn, nil, nil)
-		if end != nil {
-			e.Obls = append(e.Obls, Obligation{Kind: "cover", ID: "harness-end-reachable", Cond: end.S.PC})
-		}
-	}()
-	tExec := time.Since(t1)
-	fmt.Printf("load+ssa %.1fs, exec %.2fs, steps %d, forks %d, merges %d, terms %d, feasibility queries %d (%.2fs)\n",
-		tLoad.Seconds(), tExec.Seconds(), e.Steps, e.Forks, e.Merges, len(termList), e.sol.Queries, e.sol.Time.Seconds())
+	}
+	res := runOne(spec, true)
+	printRun(res, *all)
+}
+
+func printRun(res *RunResult, all bool) {
+	fmt.Printf("entry %s params %v: load %.1fs exec %.2fs solve %.1fs (cpu %.1fs); steps %d forks %d merges %d terms %d feas %d (%.1fs)\n",
+		res.Spec.Entry, res.Spec.Params, res.LoadS, res.ExecS, res.SolveS, res.SolverCPU, res.Steps, res.Forks, res.Merges, res.Terms, res.FeasQueries, res.FeasS)
+	if res.Unsupported != "" {
+		fmt.Println("UNSUPPORTED:", res.Unsupported)
+	}
 	var names []string
-	for n := range e.funcsHit {
+	for n := range res.Funcs {
 		names = append(names, n)
 	}
 	sort.Strings(names)
-	fmt.Printf("functions executed from SSA: %d: %s\n", len(names), strings.Join(names, ", "))
-
-	q0, tq0 := e.sol.Queries, e.sol.Time
-	bad := 0
-	for oi, o := range e.Obls {
-		var r string
-		var model map[string]uint64
-		if *standalone {
-			var d time.Duration
-			tb := time.Now()
-			r, model, d = Standalone(o.Cond, *solverBin, true)
-			tStand += d
-			fmt.Printf("    (obl %d: solver %.2fs, total %.2fs)\n", oi+1, d.Seconds(), time.Since(tb).Seconds())
-		} else {
-			r = e.sol.Check(o.Cond)
+	fmt.Printf("functions executed from SSA: %d\n", len(names))
+	nd := 0
+	for _, o := range res.Obls {
+		interesting := !(o.Kind != "cover" && o.Result == "unsat") && !(o.Kind == "cover" && o.Result == "sat")
+		if o.Kind != "cover" && o.Result == "unsat" {
+			nd++
 		}
-		status := ""
-		switch o.Kind {
-		case "cover":
-			if r == "sat" {
-				status = "ok (reachable)"
-			} else {
-				status = "VACUOUS (" + r + ")"
-				bad++
-			}
-		default:
-			if r == "unsat" {
-				status = "discharged"
-			} else {
-				status = "COUNTEREXAMPLE (" + r + ")"
-				bad++
-				if r == "sat" {
-					m := model
-					if m == nil {
-						m = e.sol.Model()
-					}
-					var ks []string
-					for k, v := range m {
-						if v != 0 {
-							ks = append(ks, fmt.Sprintf("%s=%d", k, v))
-						}
-					}
-					sort.Strings(ks)
-					status += " nonzero: " + strings.Join(ks, " ")
-				}
+		if all || interesting || o.Native != "" {
+			fmt.Printf("  [%s] %s: %s (%.2fs) %s %s %s\n", o.Kind, o.ID, o.Result, o.SolverS, o.Reproduced, o.Native, o.Cross)
+			if o.Witness != "" && (interesting) {
+				fmt.Printf("      model: %s\n", o.Witness)
 			}
 		}
-		fmt.Printf("  #%d [%s] %s: %s\n", oi+1, o.Kind, o.ID, status)
 	}
-	fmt.Printf("obligations %d, failing %d, obligation queries %d (%.2fs)\n", len(e.Obls), bad, e.sol.Queries-q0, (e.sol.Time - tq0).Seconds())
-	fmt.Printf("standalone solver time %.2fs\n", tStand.Seconds())
-	e.sol.Close()
+	fmt.Printf("obligations %d, discharged %d, violations %d, spurious %d, undecided %d, vacuous %d, witnesses ok %d bad %d\n",
+		len(res.Obls), nd, len(res.Violations), len(res.Spurious), len(res.Undecided), len(res.Vacuous), res.Witnessed, len(res.WitnessBad))
+}
+
+func cmdReplay(args []string) {
+	fs := flag.NewFlagSet("replay", flag.ExitOnError)
+	prop := fs.String("prop", "", "property id")
+	fs.Parse(args)
+	if fs.NArg() != 1 {
+		fatal("usage: symgo replay --prop <id> <file>")
+	}
+	path := fs.Arg(0)
+	tmp, _ := os.MkdirTemp("", "symgo-replay-")
+	defer os.RemoveAll(tmp)
+	bin := tmp + "/replay.test"
+	if err := buildReplayBin(bin); err != nil {
+		fatal("%v", err)
+	}
+	nat, err := runReplayBin(bin, path)
+	if err != nil {
+		fatal("%v", err)
+	}
+	var doc struct {
+		Kind, ID string
+	}
+	b, _ := os.ReadFile(path)
+	json.Unmarshal(b, &doc)
+	fmt.Printf("replay of %s [%s] %s: %s\n", path, doc.Kind, doc.ID, nat.summary())
+	rep := false
+	switch doc.Kind {
+	case "assert":
+		for _, f := range nat.Failures {
+			if f == doc.ID {
+				rep = true
+			}
+		}
+	case "panic":
+		rep = nat.Panicked || nat.Crashed
+	case "unwind":
+		rep = nat.Timeout || nat.Crashed
+	}
+	if rep && !nat.AssumeFailed {
+		fmt.Printf("VIOLATION property=%s replay=%s\n", *prop, path)
+		os.Exit(1)
+	}
+	fmt.Println("not reproduced")
 }
